@@ -144,6 +144,27 @@ def _rng(mode, a, b):
     return (a, b) if mode in (3, 4) else (a, a)
 
 
+@st.composite
+def scale_assume_case(draw, tier):
+    """LARGE models and LARGE dictionaries: the assumption names 1-2 sub-proposition ids and a few leaves, the interpretation gives
+    every other leaf (hundreds of entries)"""
+    spec = draw(S.scale_spec())
+    lv = oracle.spec_leaves(spec)
+    ids = sorted(lv)
+    in_d = set(draw(st.lists(st.integers(0, len(ids) - 1), min_size=0, max_size=4, unique=True)))
+    bits = draw(st.integers(0, 2 ** 62))
+    dens = draw(st.sampled_from([0, 1, 2, 3]))
+    dl, il = [], []
+    for j, i in enumerate(ids):
+        lo, hi = lv[i]
+        b1, b2 = (bits >> (j % 62)) & 1, (bits >> ((5 * j + 1) % 62)) & 1
+        v = [lo, hi if (b1 and b2) else lo, hi if b1 else lo, hi][dens]
+        dl.append([draw(st.sampled_from([1, 2])), v, v] if j in in_d else [0, lo, lo])
+        il.append([1, v, hi])
+    dc = [list(t_) for t_ in draw(st.lists(st.tuples(st.integers(0, 400), st.integers(0, 1), st.integers(0, 2)), min_size=1, max_size=2))]
+    return {"model": spec, "dl": dl, "il": il, "dc": dc, "extra": []}
+
+
 def check(case, ev):
     import puan
     spec = case["model"]
@@ -199,7 +220,7 @@ def check(case, ev):
     if size <= 2000:
         pts = list(itertools.product(*[range(lo, hi + 1) for lo, hi in dbox]))
     else:
-        pts = list(itertools.product(*[(lo, hi) if lo != hi else (lo,) for lo, hi in dbox]))[:256]
+        pts = list(itertools.islice(itertools.product(*[(lo, hi) if lo != hi else (lo,) for lo, hi in dbox]), 256))
         pts += [tuple(lo + (v % (hi - lo + 1)) for v, (lo, hi) in zip(e + [0] * len(dbox), dbox)) for e in case["extra"]]
     remaining = {}
     for x in oracle.walk(assumed):
@@ -281,5 +302,5 @@ def empty(slice_i, n):
 
 
 def parts(tier):
-    return [Part("empty0", enumerate_cases=(lambda t: empty(0, 1)), check=check, time_quick=120.0)] + [Part("symmetric_shapes%d" % i, enumerate_cases=(lambda t, i=i: symmetric_shapes(i, 2)), check=check, time_quick=120.0) for i in range(2)] + [Part("compound_siblings", strategy=lambda t: siblings_case(t), check=check, quick=(2, 250), thorough=(4, 3000))] + [Part("wide_nodes", strategy=lambda t: wide_assume_case(t), check=check, quick=(2, 150), thorough=(4, 2000))] + [Part("assume", strategy=lambda t: case_strategy(t), check=check, quick=(8, 300), thorough=(16, 2500)),
+    return [Part("scale", strategy=lambda t: scale_assume_case(t), check=check, quick=(2, 40), thorough=(4, 500)), Part("empty0", enumerate_cases=(lambda t: empty(0, 1)), check=check, time_quick=120.0)] + [Part("symmetric_shapes%d" % i, enumerate_cases=(lambda t, i=i: symmetric_shapes(i, 2)), check=check, time_quick=120.0) for i in range(2)] + [Part("compound_siblings", strategy=lambda t: siblings_case(t), check=check, quick=(2, 250), thorough=(4, 3000))] + [Part("wide_nodes", strategy=lambda t: wide_assume_case(t), check=check, quick=(2, 150), thorough=(4, 2000))] + [Part("assume", strategy=lambda t: case_strategy(t), check=check, quick=(8, 300), thorough=(16, 2500)),
             Part("symmetric", strategy=lambda t: symmetric_case(t), check=check, quick=(3, 300), thorough=(6, 2500))]
